@@ -1,5 +1,5 @@
 (* C05 - every touch starts afresh, whatever happened before. *)
-From Wh Require Import Prelude Permute PN Gens PermuteP GensP.
+From Wh Require Import Prelude Permute PN Gens PermuteP GensP Sys BotP.
 
 (* after ANY history (calls pending, a multi-change call half rung, any position in the course),
    a reset generator is exactly the generator its constructor returned, so the second touch's rows
@@ -35,3 +35,18 @@ Proof.
   destruct (mk_grandsire 5 None) as [g0|e] eqn:E; [|vm_compute in E; discriminate].
   exists g0. split; [reflexivity|]. vm_compute in E. inversion E; subst. vm_compute. reflexivity.
 Qed.
+
+(* through the Bot: at the row turnover that starts the method (start counter 0, by Go or up-down-in)
+   the first method row, its calls and the generator that rings on are those of the generator AS
+   CONSTRUCTED, whatever the session did to it before (ops) *)
+Theorem C05_bot_method_start_like_fresh_launch : forall w f w' g0 ops,
+  fresh g0 -> b_gen (w_bot w) = gen_after g0 ops ->
+  opt_z_is (b_rounds_left (w_bot w)) 0 = true ->
+  start_next_row w f = (w', None) ->
+  b_ringing (w_bot w') = true -> b_rounds_flag (w_bot w') = false ->
+  exists g' r cs,
+    gen_next g0 (stroke_of_row (b_row_number (w_bot w'))) = Ok (g', (r, cs))
+    /\ b_gen (w_bot w') = g'
+    /\ b_row (w_bot w') = pad_to (b_opening_row (w_bot w)) r
+    /\ b_calls (w_bot w') = cs.
+Proof. exact method_start_like_fresh_launch. Qed.
